@@ -34,6 +34,7 @@ type connPlan struct {
 	segs         []segPlan
 	fin          int // -1: no FIN; n >= 0: FIN carrying n bytes
 	forceISS     int64
+	synOnly      bool   // the client sends its SYN and nothing else (a second SYN for the tuple may follow from another plan)
 	lastAck      bool   // after the FIN exchange the client acknowledges the server's FIN (the state is then removed)
 	finSeq       uint32 // sequence number of the server's FIN
 	finSeen      bool
@@ -198,6 +199,10 @@ func (r *canRun) step(c *connPlan) {
 		}
 		back(txs[0], "syn-ack")
 		c.srvSeq = txs[0].seq
+		if c.synOnly {
+			c.done = true
+			return
+		}
 		if c.forceISS >= 0 {
 			if !r.lab.c.VerifRebaseISS(c.peer, my, c.sport, c.dport, uint32(c.forceISS)) {
 				r.viol("state-not-found-after-syn", "")
@@ -722,6 +727,23 @@ func genC14(tier string, seed uint64) {
 			b.lastAck = true
 			a.lastAck = false
 		}
+		runScenario(1, conns, order, nil)
+	}
+	// 2f. a second SYN for a tuple whose handshake is still open, with the same and with another ISN (a client that
+	// retransmits, or one that restarted): every SYN is answered with a SYN-ACK acknowledging its own ISN + 1
+	for vi, isns := range [][]uint32{{1000, 1000}, {1000, 70000}, {1<<32 - 2, 5}, {0, 1<<32 - 1, 1 << 31}, {7, 7, 8}} {
+		var conns []*connPlan
+		var order []int
+		for k, isn := range isns {
+			pl := plan(p1, 47000+uint16(vi), 8080, isn, nil, -1, -1)
+			pl.synOnly = true
+			conns = append(conns, pl)
+			order = append(order, k)
+		}
+		// another connection goes through its whole life in between and afterwards
+		other := plan(p2, 47100+uint16(vi), 8080, 99, []segPlan{{3, true}}, 0, -1)
+		conns = append(conns, other)
+		order = append(order, len(isns), len(isns), len(isns), len(isns))
 		runScenario(1, conns, order, nil)
 	}
 	// 2a. decoded ports whose handler reports the first bytes read (telnet, https, nbt, smb, mssql, redis)
